@@ -44,6 +44,11 @@ Inductive pxcase :=
 | CProxyRed (pname : Z) (buf : nat) (icp : Z) (steps : list (list act)) (observed : list pobs)
     (* a lock-step scenario used to re-check the reduction of the exploration: at every step the outcome set of the
        reduced exploration must equal that of the full one *)
+| CProxyRace (rounds : list (list Z * list Z * Z))
+    (* attach race: peer X is attached (AddClient) at the very moment the first envelope addressed to X is being
+       routed (dial on demand). Per round: the tokens of the envelopes for X delivered after AddClient had returned
+       and the proxy had settled; the tokens X's attached connection was handed (-777: altered); the number of
+       newConnection(X) calls made after that point *)
 | CProxyE2E (results : list (Z * Z))
     (* (expected, observed) outcome tokens of RPCs run through a real Proxy (+ Demux + Server) *)
 | CProxyFree (pname : Z) (buf : nat) (icp : Z) (names : list Z) (sent : list (Z * env)) (got : list (Z * env)) (drops : Z) (clean : bool).
@@ -655,6 +660,12 @@ Definition check (c : pxcase) : list nat :=
       ++ (if wf_buf buf then [] else [4%nat])
   | CProxyRed pname buf icp steps observed =>
       dedup Nat.eqb (reduction_from 20000 (cfg_of pname buf icp) [(init, [])] steps observed)
+  | CProxyRace rounds =>
+      (* everything accepted for X after its attach completed is handed to X's attached connection, in order, once;
+         X is not dialled once attached *)
+      if forallb (fun r => match r with (sent, got, dials) =>
+                    lz_eqb (filter (fun x => mem Z.eqb x sent) got) sent && (dials =? 0) end) rounds
+      then [] else [7%nat]
   | CProxyE2E results =>
       if forallb (fun p => fst p =? snd p) results then [] else [6%nat]
   | CProxyFree pname buf icp names sent got drops clean =>
